@@ -164,6 +164,7 @@ type Engine struct {
 	inHarness                    bool
 	clockBudget                  string
 	appendSpare                  int
+	appendSpareChosen            int
 	marshalMemo                  map[string]string
 	dhPairs                      [][2]string
 	macKeys                      []string
@@ -174,7 +175,7 @@ func (e *Engine) resetPath(prefix []decision) {
 	e.S = NewSolver()
 	e.prefix, e.decisions, e.pending, e.fresh, e.clockN, e.occ, e.Inputs = prefix, nil, nil, 0, 0, nil, nil
 	e.forkCount = 0
-	e.clockBudget, e.appendSpare = "", 0
+	e.clockBudget, e.appendSpare, e.appendSpareChosen = "", 0, -1
 	e.fs, e.joins = nil, map[string]joinPart{}
 	globals = map[*ssa.Global]Ptr{}
 	allocEpoch, epochCtr, frozenAt = map[*any]int{}, 0, -1
@@ -1446,9 +1447,14 @@ func (e *Engine) builtin(name string, args []any, c *ssa.CallCommon) any {
 		// up (vf.AppendSpare(k)): then the spare capacity is an arbitrary value in 0..k
 		spare := 0
 		if e.appendSpare > 0 {
-			sym := e.freshSym("Int", "spare")
-			e.S.Send(fmt.Sprintf("(assert (and (<= 0 %s) (<= %s %d)))", sym, sym, e.appendSpare))
-			spare = int(e.concretize(SymInt{sym}))
+			// one choice per enabling of the directive (every reallocation then gets that much spare capacity):
+			// enough to expose capacity-dependent aliasing without forking at every append
+			if e.appendSpareChosen < 0 {
+				sym := e.freshSym("Int", "spare")
+				e.S.Send(fmt.Sprintf("(assert (and (<= 0 %s) (<= %s %d)))", sym, sym, e.appendSpare))
+				e.appendSpareChosen = int(e.concretize(SymInt{sym}))
+			}
+			spare = e.appendSpareChosen
 		}
 		arr := make([]any, n+spare)
 		if spare > 0 {
